@@ -76,7 +76,25 @@ def all_wf(p):
 
 
 def plug(rng, depth=1):
-    return wf_npat(rng, depth, constrained=0.0, subst=0.0)
+    # one plug in five may contain pending substitutions (meta-headed ESubst / SSubst nodes): `Interpreter.pattern` then
+    # has to build plug and pattern in the order the stateful interpreters expect
+    r = rng.random()
+    if r < 0.12:
+        return subst_plug(rng, depth)
+    return wf_npat(rng, depth, constrained=0.0, subst=0.35 if r < 0.3 else 0.0)
+
+
+def subst_plug(rng, depth=1):
+    """a pending substitution mv[q/x] (element or set variable, possibly nested once) that the machine can construct"""
+    for _ in range(20):
+        kind = rng.choice(('esub', 'ssub'))
+        head = ('mv', rng.choice((0, 1, 2, 3)), (), (), (), (), ())
+        if rng.random() < 0.25:
+            head = (rng.choice(('esub', 'ssub')), head, rng.choice(gen.IDS), wf_npat(rng, 0, constrained=0.0, subst=0.0))
+        p = (kind, head, rng.choice(gen.IDS), wf_npat(rng, max(depth - 1, 0), constrained=0.0, subst=0.0))
+        if all_wf(p):
+            return p
+    return ('evar', 0)
 
 
 def gen_pf(rng, depth, axioms):
